@@ -621,12 +621,105 @@ pub fn run_c18(run: &mut Run) -> Stats {
         }
         let _ = std::fs::remove_file(&path);
     }
-    // non-regular files are refused
-    for (what, p) in [("directory", base.clone()), ("char-device", PathBuf::from("/dev/null"))] {
+    // two live streams of ONE entity, polled alternately (an entity is "cheap to clone and reuse
+    // for many requests"): each must still yield exactly its own range
+    {
+        let len: u64 = 200_001;
+        let path = base.join("two-streams");
+        std::fs::write(&path, content_vec(0, len as usize)).unwrap();
+        let crf = Crf::new(File::open(&path).unwrap(), HeaderMap::new()).unwrap();
+        for (ra, rb) in [((5u64, 200_001u64), (100u64, 150u64)), ((0, 65_536), (65_536, 131_072)), ((70_000, 200_000), (0, 70_000)), ((1, 2), (3, 200_000))] {
+            for first_polls in [1usize, 2] {
+                let w = noop_waker();
+                let mut cx = Context::from_waker(&w);
+                let mut sa = crf.get_range(ra.0..ra.1);
+                let mut sb = crf.clone().get_range(rb.0..rb.1);
+                let mut got_a: Vec<u8> = Vec::new();
+                let mut got_b: Vec<u8> = Vec::new();
+                let mut verdict = String::from("ok");
+                let mut pull = |s: &mut std::pin::Pin<Box<dyn futures_core::Stream<Item = Result<Bytes, FErr>> + Send + Sync>>, out: &mut Vec<u8>, cx: &mut Context<'_>| -> Option<bool> {
+                    match s.as_mut().poll_next(cx) {
+                        Poll::Ready(Some(Ok(b))) => {
+                            out.extend_from_slice(&b);
+                            Some(true)
+                        }
+                        Poll::Ready(None) => Some(false),
+                        _ => None,
+                    }
+                };
+                // (a finished stream is not polled again: futures' `unfold` forbids it)
+                let mut a_done = false;
+                for _ in 0..first_polls {
+                    if a_done {
+                        break;
+                    }
+                    match pull(&mut sa, &mut got_a, &mut cx) {
+                        None => verdict = "error / pending on the first stream".into(),
+                        Some(more) => a_done = !more,
+                    }
+                }
+                // drain b, then finish a (alternating once more in between)
+                let mut guard = 0;
+                loop {
+                    guard += 1;
+                    match pull(&mut sb, &mut got_b, &mut cx) {
+                        Some(true) if guard < 64 => {
+                            if guard == 1 && !a_done {
+                                if let Some(more) = pull(&mut sa, &mut got_a, &mut cx) {
+                                    a_done = !more;
+                                }
+                            }
+                        }
+                        Some(_) => break,
+                        None => {
+                            verdict = "error / pending on the second stream".into();
+                            break;
+                        }
+                    }
+                }
+                for _ in 0..64 {
+                    if a_done {
+                        break;
+                    }
+                    match pull(&mut sa, &mut got_a, &mut cx) {
+                        Some(true) => {}
+                        Some(false) => break,
+                        None => {
+                            verdict = "error / pending on the first stream".into();
+                            break;
+                        }
+                    }
+                }
+                if verdict == "ok" && (got_a != content_vec(ra.0, (ra.1 - ra.0) as usize) || got_b != content_vec(rb.0, (rb.1 - rb.0) as usize)) {
+                    verdict = format!("wrong bytes: stream {ra:?} delivered {} bytes (correct: {}), stream {rb:?} delivered {} bytes (correct: {})", got_a.len(), got_a == content_vec(ra.0, (ra.1 - ra.0) as usize), got_b.len(), got_b == content_vec(rb.0, (rb.1 - rb.0) as usize));
+                }
+                st.evaluations += 1;
+                st.nontrivial(&("two-streams", ra, rb, first_polls));
+                let s0 = st.state(&("two-streams", ra.1 - ra.0 > 65_536, rb.1 - rb.0 > 65_536));
+                let s1 = st.state(&("two-streams-result", verdict == "ok"));
+                st.transition(s0, first_polls as u64, s1);
+                st.outcome(format!("two-live-streams/{}", if verdict == "ok" { "ok" } else { "bad" }));
+                if verdict != "ok" && prop == "C18" {
+                    st.violation((1 << 58) + ra.0, "interleaved-streams".into(), format!("two streams of one entity polled alternately, {ra:?} and {rb:?}: {verdict}"), || json!({"engine": "fs_mc", "what": "two-streams"}));
+                }
+            }
+        }
+        let _ = std::fs::remove_file(&path);
+    }
+    // non-regular files are refused -- by both constructors
+    for (what, p) in [("directory", base.clone()), ("char-device", PathBuf::from("/dev/null")), ("directory/with-metadata", base.clone()), ("char-device/with-metadata", PathBuf::from("/dev/null"))] {
         st.evaluations += 1;
         st.nontrivial(&what);
         let s0 = st.state(&("ctor", what));
-        let r = File::open(&p).map_err(|e| e.to_string()).and_then(|f| Crf::new(f, HeaderMap::new()).map(|_| ()).map_err(|e| e.to_string()));
+        let with_md = what.ends_with("with-metadata");
+        let r = File::open(&p).map_err(|e| e.to_string()).and_then(|f| {
+            if with_md {
+                let md = f.metadata().map_err(|e| e.to_string())?;
+                Crf::new_with_metadata(f, &md, HeaderMap::new()).map(|_| ()).map_err(|e| e.to_string())
+            } else {
+                Crf::new(f, HeaderMap::new()).map(|_| ()).map_err(|e| e.to_string())
+            }
+        });
         let s1 = st.state(&("ctor-result", what, r.is_ok()));
         st.transition(s0, 0, s1);
         st.outcome(format!("ctor-{what}-{}", if r.is_ok() { "accepted" } else { "refused" }));
@@ -670,6 +763,9 @@ fn build_tree() -> Tree {
     w("a...gz", "a dot dot gz");
     w("sub/secret", "inner secret");
     w("secret.gz", "secret gz inside");
+    // a .gz whose plain file does not exist
+    w("orphan.gz", "gz without a plain file");
+    w("sub/orphan2.gz", "another one");
     // a request path that itself ends in .gz, with and without a sibling of its own
     w("a.gz.gz", "gz of a.gz");
     w("sub/b.tar.gz", "tarball");
@@ -782,7 +878,7 @@ pub fn run_c19(run: &mut Run) -> Stats {
         paths.push(format!("{deep}/{tail}"));
     }
     // every file of the tree by name (also names ending in .gz), plus a few names that do not exist
-    for extra in ["a.gz", "a.gz.gz", "a.gz.gz.gz", "sub/b.tar.gz", "sub/b.tar.gz.gz", "sub/b.tar", "empty", "empty.gz", "e2", "e2.gz", "with space", "with space.gz", "caf\u{e9}", "caf\u{e9}.gz", "caf\u{e8}", "..\\secret", "a\\..\\a", "%2e%2e", "%2e%2e/secret", "secret.gz", "a...gz", "sub/a.gz", "sub/a.gz/", "sub/sub/a.gz", "a.GZ", "a.gz/", ".gz", "sub/.gz"] {
+    for extra in ["orphan", "orphan.gz", "sub/orphan2", "sub/orphan2/", "orphan/", "a.gz", "a.gz.gz", "a.gz.gz.gz", "sub/b.tar.gz", "sub/b.tar.gz.gz", "sub/b.tar", "empty", "empty.gz", "e2", "e2.gz", "with space", "with space.gz", "caf\u{e9}", "caf\u{e9}.gz", "caf\u{e8}", "..\\secret", "a\\..\\a", "%2e%2e", "%2e%2e/secret", "secret.gz", "a...gz", "sub/a.gz", "sub/a.gz/", "sub/sub/a.gz", "a.GZ", "a.gz/", ".gz", "sub/.gz"] {
         paths.push(extra.to_string());
     }
     // the absolute path of the outside secret, smuggled behind prefixes a sloppy normaliser strips
@@ -859,6 +955,15 @@ pub fn run_c19(run: &mut Run) -> Stats {
                                             if !gz_exists_but_unopenable {
                                                 fs.push(fnd(&["C19"], "spurious-error", format!("{} names an existing node but get() (Accept-Encoding {ae:?}, auto_gzip {auto_gzip}) failed with {:?} ({e})", show_path(p), e.kind())));
                                             }
+                                        }
+                                        Err(_) if auto_gzip
+                                            && prefers_gzip(ae.map(|a| a.as_bytes())) == Some(true)
+                                            && matches!(std::fs::metadata(tree.base.join(format!("{p}.gz"))), Ok(m) if !m.is_dir())
+                                            && File::open(tree.base.join(format!("{p}.gz"))).is_ok() =>
+                                        {
+                                            // the plain path does not exist, but the sibling that must be
+                                            // substituted does: the answer is that sibling, not an error
+                                            fs.push(fnd(&["C19"], "substitution-expected", format!("{} has no plain file but an openable {}.gz, Accept-Encoding {ae:?} prefers gzip and auto_gzip is on, yet get() failed with {:?}", show_path(p), show_path(p), e.kind())));
                                         }
                                         Err(se) => {
                                             if se.kind() != e.kind() && e.kind() == std::io::ErrorKind::InvalidInput {
